@@ -23,7 +23,7 @@ RULE = ('InlineGen programs (ProgGen kernel interleaved with calls to generated 
         '(random option vector) run by a Scheduler over a multi-file project. Original and transformed sources are built '
         'with the same untouched driver and run on 4 input sets. Non-trivial = the transformation removed at least one '
         'call / statement-function / parameter reference from the kernel and both programs ran; distinct = hash of source+mode. '
-        'Features with a known defect are enabled in dedicated 1/16 slices only (one hazard per case).')
+        'Features with a known defect are enabled in every 4th case only (one hazard per case, 22 hazards in rotation).')
 CASES = {'quick': 192, 'thorough': 3200}
 MIN_NONTRIVIAL = {'quick': 80, 'thorough': 1400}
 ANCHORS = ['loki/transformations/inline/procedures.py', 'loki/transformations/inline/functions.py',
